@@ -38,3 +38,34 @@ package snappy
 //@   requires *c != nil
 //@   ensures [C18.pool.own] typeIs(result, *writer) && asType(result, *writer) != nil && fresh(asType(result, *writer)) && asType(result, *writer).Writer != nil && fresh(asType(result, *writer).Writer)
 //@   modifies nothing
+
+// ---------------------------------------------------------------- Compress / Decompress (C18)
+
+// `over`: the stream a pooled (de)compressor was last pointed at. Compress hands out a writer that
+// compresses INTO the caller's writer (not into the stream of the call that used it before, and not
+// into the io.Discard it was built on); Decompress a reader that reads FROM the caller's reader -
+// whether it comes from the pool or is new.
+//@ ghostfield any.over Iface
+//@ func s2.(*Writer).Reset
+//@   assumed
+//@   params w, dst
+//@   ensures w.over == dst && w.busy
+//@   modifies w.over, w.busy
+// (klauspost's snappy.NewReader: contract in replication/snapshot's contract file - `over` is the stream it was laid over)
+//@ func s2.(*Reader).Reset
+//@   assumed
+//@   params z, r
+//@   ensures z.over == r && z.busy
+//@   modifies z.over, z.busy
+//@ func (*compressor).Compress
+//@   maypanic
+//@   results wc, err
+//@   requires c != nil
+//@   ensures [C18.compress.over] err == nil && typeIs(wc, *writer) && asType(wc, *writer) != nil && asType(wc, *writer).Writer.over == w && asType(wc, *writer).Writer.busy
+//@   modifies family(G_any_over), family(G_any_busy)
+//@ func (*compressor).Decompress
+//@   maypanic
+//@   results rd, err
+//@   requires c != nil
+//@   ensures [C18.decompress.source] err == nil ==> typeIs(rd, *reader) && asType(rd, *reader) != nil && asType(rd, *reader).Reader.over == r && asType(rd, *reader).Reader.busy
+//@   modifies family(G_any_over), family(G_any_busy)
